@@ -646,6 +646,62 @@ func rulesC05(p *Prog, r *Report) {
 		}
 	}
 
+	// R05.7b: the same agreement where the fill price is a local or a captured variable (the
+	// price-discovery loop of Match, the per-tick closure of MatchAtSinglePrice): inside one
+	// function every amount is judged at a price it also fills at.
+	for _, fn := range p.Funcs {
+		if fn.Pkg == nil || !strings.HasSuffix(fn.Pkg.Pkg.Path(), "x/liquidity/amm") || len(fn.Blocks) == 0 || fn == matchable {
+			continue
+		}
+		fillKeys := map[string]bool{}
+		type js struct {
+			c    ssa.CallInstruction
+			key  string
+			what string
+		}
+		var judges []js
+		for _, c := range calls(fn) {
+			sc := c.Common().StaticCallee()
+			if sc == nil || sc.Pkg != matchable.Pkg {
+				continue
+			}
+			a := c.Common().Args
+			switch sc.Name() {
+			case "FillOrder":
+				if len(a) == 3 {
+					fillKeys[p.ExprKey(a[2])] = true
+				}
+			case "FulfillOrder", "FulfillOrders":
+				if len(a) == 2 {
+					fillKeys[p.ExprKey(a[1])] = true
+				}
+			case "DistributeOrderAmountToTick", "DistributeOrderAmountToOrders":
+				if len(a) == 3 {
+					fillKeys[p.ExprKey(a[2])] = true
+				}
+			case "MatchableAmount", "TotalMatchableAmount":
+				if len(a) == 2 {
+					if _, isParam := a[1].(*ssa.Parameter); !isParam {
+						judges = append(judges, js{c, p.ExprKey(a[1]), sc.Name()})
+					}
+				}
+			}
+		}
+		if len(fillKeys) == 0 {
+			continue
+		}
+		for i, j := range judges {
+			r.Instance("R05.7")
+			r.FuncsSeen[fname(fn)] = true
+			construct := fmt.Sprintf("%s -> %s (local price) #%d", fname(fn), j.what, i+1)
+			if fillKeys[j.key] {
+				r.OK("R05.7", construct, "judged at a price the function fills at", p.instrPos(j.c))
+			} else {
+				r.Fail("R05.7", construct, "the amount is judged at a price the function does not fill at: what is counted for the tick is not what the fill can take, and the two sides of the batch no longer exchange the same base amount", p.instrPos(j.c), nil)
+			}
+		}
+	}
+
 	// R05.8 one matchability criterion for both directions ----------------------------------------
 	// MatchableAmount zeroes an amount whose quote value truncates to zero. The test sits on every
 	// path to the return: a dust amount that one direction may not trade must not be counted for
@@ -1033,6 +1089,61 @@ func rulesC06(p *Prog, r *Report) {
 			}
 		}
 	}
+	// R06.7 clip-and-recompute only on strict excess --------------------------------------------
+	// Pool creation accepts all of x and the matching y; when that y exceeds the offer it accepts
+	// all of y and recomputes x from it, rounded UP. The recomputation is entered only when the
+	// computed amount strictly exceeds the offered one: at equality the round-up can yield more
+	// than was offered of the other coin.
+	r.Rule("R06.7", "amm: an accepted amount is recomputed (rounded up) from the other coin only when the first guess strictly exceeds the offer", 1)
+	for _, fn := range p.Funcs {
+		if fn.Pkg == nil || !strings.HasSuffix(fn.Pkg.Pkg.Path(), "x/liquidity/amm") || len(fn.Blocks) == 0 {
+			continue
+		}
+		for _, b := range fn.Blocks {
+			if len(b.Instrs) == 0 {
+				continue
+			}
+			ifi, ok := b.Instrs[len(b.Instrs)-1].(*ssa.If)
+			if !ok {
+				continue
+			}
+			x, y, onT, _, isCmp := p.CmpRel(ifi.Cond)
+			if !isCmp || x == nil || y == nil {
+				continue
+			}
+			isOffered := func(v ssa.Value) bool {
+				pr, ok := v.(*ssa.Parameter)
+				return ok && pr.Parent() == fn && strings.HasSuffix(pr.Type().String(), "math.Int")
+			}
+			isComputed := func(v ssa.Value) bool { return p.passesCall(v, "Ceil") || p.passesCall(v, "TruncateInt") }
+			switch {
+			case isComputed(x) && isOffered(y):
+			case isComputed(y) && isOffered(x):
+				onT = onT.mirror()
+			default:
+				continue
+			}
+			// the taken branch recomputes an amount rounded up
+			recompute := false
+			for _, in := range b.Succs[0].Instrs {
+				if c, ok := in.(*ssa.Call); ok && calleeShortName(&c.Call) == "Ceil" {
+					recompute = true
+				}
+			}
+			if !recompute || !onT.subsetOf(RGE) {
+				continue
+			}
+			r.Instance("R06.7")
+			r.FuncsSeen[fname(fn)] = true
+			construct := fname(fn) + " clip and recompute"
+			if onT.subsetOf(RGT) {
+				r.OK("R06.7", construct, "entered only on strict excess", p.instrPos(ifi))
+			} else {
+				r.Fail("R06.7", construct, "the other coin's amount is recomputed (rounded up) also when the first guess EQUALS the offer: the rounded-up amount can exceed what was offered of that coin", p.instrPos(ifi), nil)
+			}
+		}
+	}
+
 	// R06.4 degenerate-reserve branches agree ---------------------------------------------------
 	// Contradiction rule (sibling agreement) inside the amm package: where a value is chosen
 	// on branches selected by "X is zero" and by "X / Y rounds to zero", both say that side X
